@@ -74,27 +74,44 @@ theorem Good.setEp (s : St) (e : Nat) (E : Ep)
     · subst hie; simp only [if_true]; exact ⟨h5, fun h => by rw [h1]; exact h, h3, h4⟩
     · simp [hie]
 
+theorem releaseCs_good (s : St) (e : Nat) : (releaseCs s e).eps = s.eps ∧ (releaseCs s e).neps = s.neps ∧
+    (releaseCs s e).pool = s.pool := by
+  unfold releaseCs
+  split
+  · exact ⟨rfl, rfl, rfl⟩
+  · split
+    · split <;> exact ⟨rfl, rfl, rfl⟩
+    · exact ⟨rfl, rfl, rfl⟩
+
+theorem releaseDrain_good (s : St) (e : Nat) : (releaseDrain s e).eps = s.eps ∧ (releaseDrain s e).neps = s.neps ∧
+    (releaseDrain s e).pool = s.pool := by
+  unfold releaseDrain
+  split <;> exact ⟨rfl, rfl, rfl⟩
+
 theorem closeEp_eps_other (s : St) (e i : Nat) (h : i ≠ e) : (closeEp s e).eps i = s.eps i := by
   unfold closeEp
   split
   · rfl
   · simp only [setEp_eps, h, if_false]
-    split <;> (try split) <;> (try split) <;> (try split) <;> simp
+    rw [(releaseDrain_good _ e).1, (releaseCs_good s e).1]
 
 theorem closeEp_neps (s : St) (e : Nat) : (closeEp s e).neps = s.neps := by
   unfold closeEp
   split
   · rfl
   · simp only [setEp_neps]
-    split <;> (try split) <;> (try split) <;> (try split) <;> simp
+    rw [(releaseDrain_good _ e).2.1, (releaseCs_good s e).2.1]
+
+theorem closeEp_pool (s : St) (e : Nat) : (closeEp s e).pool = s.pool := by
+  unfold closeEp
+  split
+  · rfl
+  · simp only [setEp_pool]
+    rw [(releaseDrain_good _ e).2.2, (releaseCs_good s e).2.2]
 
 /-- the record of the closed endpoint -/
 theorem closeEp_eps_self (s : St) (e : Nat) :
-    (closeEp s e).eps e =
-      if (s.eps e).closed then s.eps e
-      else { (s.eps e) with closed := true, expiresAt := 0, csClosed := true, tuples := [],
-                            connCloses := if (s.eps e).failed then (s.eps e).connCloses else (s.eps e).connCloses + 1,
-                            drain := none, ticket := none } := by
+    (closeEp s e).eps e = if (s.eps e).closed then s.eps e else closedRecord (s.eps e) := by
   unfold closeEp
   split
   · rfl
@@ -110,11 +127,13 @@ theorem Good.closeEp (s : St) (e : Nat) : Good s (closeEp s e) := by
       have := h i hi
       unfold CloseOk at this ⊢
       by_cases hc : (s.eps i).closed = true
-      · simp [hc]; simpa [hc] using this
+      · simpa [hc] using this
       · have hc' : (s.eps i).closed = false := by simpa using hc
         have h0 := this.1 hc'
-        simp [hc', h0]
-        split <;> simp
+        simp only [hc', Bool.false_eq_true, if_false, closedRecord, h0]
+        refine ⟨by simp, ?_⟩
+        intro _
+        by_cases hf : (s.eps i).failed = true <;> simp [hf]
     · rw [closeEp_eps_other s e i hie]; exact h i hi
   · intro i _
     by_cases hie : i = e
@@ -123,19 +142,26 @@ theorem Good.closeEp (s : St) (e : Nat) : Good s (closeEp s e) := by
       by_cases hc : (s.eps i).closed = true
       · simp [hc]
       · have hc' : (s.eps i).closed = false := by simpa using hc
-        simp [hc']
+        simp [hc', closedRecord]
     · rw [closeEp_eps_other s e i hie]; exact ⟨id, id, rfl, rfl⟩
 
 theorem Good.setPool (s : St) (k : Nat) (v : Option Nat) : Good s (setPool s k v) := Good.of_eps rfl rfl
 theorem Good.setTrk (s : St) (k : Nat) (v) : Good s (setTrk s k v) := Good.of_eps rfl rfl
 theorem Good.setDrn (s : St) (k : Nat) (v) : Good s (setDrn s k v) := Good.of_eps rfl rfl
 
-theorem Good.retire (s : St) (e : Nat) : Good s (retire s e) := by
-  unfold retire
-  refine Good.trans (Good.setEp s e _ rfl rfl rfl rfl (fun _ => rfl)) ?_
+theorem markDead_good (s : St) (e : Nat) : Good s (markDead s e) := by
+  unfold markDead
+  exact Good.setEp s e _ rfl rfl rfl rfl (fun _ => rfl)
+
+theorem selfRemove_good (s : St) (e : Nat) : Good s (selfRemove s e) := by
+  unfold selfRemove
   split
-  · exact Good.trans (Good.setPool _ _ _) (Good.closeEp _ _)
-  · exact Good.closeEp _ _
+  · exact Good.setPool _ _ _
+  · exact Good.refl s
+
+theorem retire_good (s : St) (e : Nat) : Good s (retire s e) := by
+  unfold retire
+  exact Good.trans (markDead_good s e) (Good.trans (selfRemove_good _ e) (Good.closeEp _ e))
 
 /-- after `retire` the endpoint is dead, closed, and the pool does not map its key to it -/
 theorem retire_spec (s : St) (e : Nat) :
@@ -143,21 +169,20 @@ theorem retire_spec (s : St) (e : Nat) :
     (retire s e).pool (s.eps e).key ≠ some e := by
   unfold retire
   have hclosed : ∀ t : St, ((closeEp t e).eps e).closed = true := by
-    intro t; rw [closeEp_eps_self]; by_cases hc : (t.eps e).closed = true <;> simp [hc]
+    intro t; rw [closeEp_eps_self]; by_cases hc : (t.eps e).closed = true <;> simp [hc, closedRecord]
   have hdead : ∀ t : St, (t.eps e).dead = true → ((closeEp t e).eps e).dead = true := by
-    intro t h; rw [closeEp_eps_self]; by_cases hc : (t.eps e).closed = true <;> simp [hc, h]
-  have hpool : ∀ t : St, (closeEp t e).pool = t.pool := by
-    intro t; unfold closeEp
+    intro t h; rw [closeEp_eps_self]; by_cases hc : (t.eps e).closed = true <;> simp [hc, h, closedRecord]
+  have hsr : (selfRemove (markDead s e) e).eps = (markDead s e).eps := by
+    unfold selfRemove; split <;> rfl
+  have hkey : ((markDead s e).eps e).key = (s.eps e).key := by simp [markDead]
+  refine ⟨?_, hclosed _, ?_⟩
+  · apply hdead; rw [hsr]; simp [markDead]
+  · rw [closeEp_pool]
+    unfold selfRemove
+    rw [hkey]
     split
-    · rfl
-    · simp only [setEp_pool]
-      split <;> (try split) <;> (try split) <;> (try split) <;> simp
-  refine ⟨?_, ?_, ?_⟩
-  · split <;> (apply hdead; simp)
-  · split <;> exact hclosed _
-  · split
-    · rw [hpool]; simp
-    · rename_i h; rw [hpool]; simpa using h
+    · simp
+    · rename_i h; exact h
 
 theorem foldl_good {α} (f : St → α → St) (hf : ∀ s a, Good s (f s a)) :
     ∀ (l : List α) (s : St), Good s (l.foldl f s) := by
@@ -172,42 +197,242 @@ theorem epochCounter_good (s : St) (d : Nat) : Good s (epochCounter s d).1 := by
   · exact Good.refl s
   · exact Good.of_eps rfl rfl
 
+theorem transferTuples_good (s : St) (ks : List Nat) (o po : Nat) : Good s (transferTuples s ks o po) :=
+  Good.of_eps rfl rfl
+
+theorem adoptOwner_good (s : St) (e : Nat) (owner : Option Nat) : Good s (adoptOwner s e owner) := by
+  unfold adoptOwner
+  cases owner with
+  | none => exact Good.refl s
+  | some o =>
+    simp only
+    have key : ∀ t : St, t.neps = s.neps → t.eps = s.eps →
+        Good s (setEp t e { (s.eps e) with owner := some o }) := by
+      intro t hn he
+      refine Good.trans (Good.of_eps hn he) ?_
+      apply Good.setEp <;> (rw [he]) <;> first | rfl | exact id
+    split
+    · split
+      · exact key _ rfl rfl
+      · exact key _ rfl rfl
+    · exact key _ rfl rfl
+
+theorem adoptDrain_good (s : St) (e : Nat) (drain : Option Nat) : Good s (adoptDrain s e drain) := by
+  unfold adoptDrain
+  cases drain with
+  | none => exact Good.refl s
+  | some d =>
+    simp only
+    split
+    · exact Good.refl s
+    · have h1 : (releaseDrain (setDrn s d (Drain.step (s.drn d) .acquire)) e).eps = s.eps := by
+        rw [(releaseDrain_good _ e).1]; rfl
+      have h2 : (releaseDrain (setDrn s d (Drain.step (s.drn d) .acquire)) e).neps = s.neps := by
+        rw [(releaseDrain_good _ e).2.1]; rfl
+      refine Good.trans (Good.of_eps h2 h1) ?_
+      apply Good.setEp <;> (rw [h1]) <;> first | rfl | exact id
+
 theorem adopt_good (s : St) (e : Nat) (owner drain : Option Nat) : Good s (adopt s e owner drain) := by
   unfold adopt
   split
   · exact Good.refl s
-  · -- every branch rewrites only tracker / drain tables and the owner / drain / ticket fields of e
-    have key : ∀ (t : St) (E : Ep), t.neps = s.neps → t.eps = s.eps →
-        E.closed = (s.eps e).closed → E.connCloses = (s.eps e).connCloses → E.failed = (s.eps e).failed →
-        E.key = (s.eps e).key → E.dead = (s.eps e).dead → Good s (setEp t e E) := by
-      intro t E hn he h1 h2 h3 h4 h5
-      refine Good.trans (Good.of_eps hn he) ?_
-      apply Good.setEp <;> (rw [he]) <;> first | assumption | (intro h; rw [h5]; exact h)
-    cases owner with
-    | none =>
-      cases drain with
-      | none => exact key s _ rfl rfl rfl rfl rfl rfl rfl
-      | some d =>
-        simp only
-        split
-        · exact key s _ rfl rfl rfl rfl rfl rfl rfl
-        · split <;> exact key _ _ rfl rfl rfl rfl rfl rfl rfl
-    | some o =>
-      simp only
-      cases drain with
-      | none =>
-        simp only
-        split
-        · split <;> exact key _ _ rfl rfl rfl rfl rfl rfl rfl
-        · exact key _ _ rfl rfl rfl rfl rfl rfl rfl
-      | some d =>
-        simp only
-        split
-        · split
-          · split <;> exact key _ _ rfl rfl rfl rfl rfl rfl rfl
-          · exact key _ _ rfl rfl rfl rfl rfl rfl rfl
-        · split
-          · split <;> (split <;> exact key _ _ rfl rfl rfl rfl rfl rfl rfl)
-          · split <;> exact key _ _ rfl rfl rfl rfl rfl rfl rfl
+  · exact Good.trans (adoptOwner_good s e owner) (adoptDrain_good _ e drain)
+
+/-! ### every operation is `Good` -/
+
+theorem dropStale_good (s : St) (k : Nat) : Good s (dropStale s k) := by
+  unfold dropStale
+  split
+  · exact Good.trans (Good.setPool _ _ _) (Good.closeEp _ _)
+  · exact Good.refl s
+
+theorem acquireTicket_good (s : St) (drain : Option Nat) : Good s (acquireTicket s drain).1 := by
+  unfold acquireTicket
+  split
+  · exact Good.setDrn _ _ _
+  · exact Good.refl s
+
+/-- publishing a new, open endpoint record -/
+theorem allocEp_good (s : St) (E : Ep) (h1 : E.closed = false) (h2 : E.connCloses = 0) : Good s (allocEp s E) := by
+  have heps : ∀ i, (allocEp s E).eps i = if i = s.neps then E else s.eps i := fun _ => rfl
+  have hn : (allocEp s E).neps = s.neps + 1 := rfl
+  refine ⟨?_, ?_, ?_⟩
+  · intro h i hi
+    rw [hn] at hi
+    rw [heps]
+    by_cases hin : i = s.neps
+    · simp only [hin, if_true]; unfold CloseOk; simp [h1, h2]
+    · simp only [hin, if_false]; exact h i (by omega)
+  · rw [hn]; omega
+  · intro i hi
+    have hin : i ≠ s.neps := Nat.ne_of_lt hi
+    rw [heps, if_neg hin]
+    exact ⟨id, id, rfl, rfl⟩
+
+theorem getOrCreate_good (s : St) (k : Nat) (sym : Bool) (nat : Nat) (owner drain : Option Nat) (d : Nat)
+    (out : DialOutcome) : Good s (getOrCreate s k sym nat owner drain d out).1 := by
+  unfold getOrCreate
+  split
+  · exact Good.refl s
+  · split
+    · rename_i e _
+      refine Good.trans ?_ (adopt_good _ e owner drain)
+      apply Good.setEp
+      · unfold updateNatTimeout; split <;> rfl
+      · unfold updateNatTimeout; split <;> rfl
+      · unfold updateNatTimeout; split <;> rfl
+      · unfold updateNatTimeout; split <;> rfl
+      · unfold updateNatTimeout; split <;> exact id
+    · cases out with
+      | failNoAlive => exact dropStale_good s k
+      | failGeneric =>
+        exact Good.trans (dropStale_good s k) (allocEp_good _ _ (by simp [failureEntry]) (by simp [failureEntry, dummyEp]))
+      | ok =>
+        refine Good.trans (Good.trans (dropStale_good s k)
+          (Good.trans (epochCounter_good _ d) (acquireTicket_good _ drain))) ?_
+        exact allocEp_good _ _ (by simp [freshEp]) (by simp [freshEp])
+
+theorem refreshTtl_fields (E : Ep) (now : Nat) :
+    (refreshTtl E now).closed = E.closed ∧ (refreshTtl E now).connCloses = E.connCloses ∧
+    (refreshTtl E now).failed = E.failed ∧ (refreshTtl E now).key = E.key ∧
+    (refreshTtl E now).dead = E.dead := by
+  unfold refreshTtl
+  split
+  · simp
+  · simp only
+    split <;> (split <;> simp)
+
+theorem preWrite_fields (E : Ep) (now : Nat) :
+    (preWrite E now).closed = E.closed ∧ (preWrite E now).connCloses = E.connCloses ∧
+    (preWrite E now).failed = E.failed ∧ (preWrite E now).key = E.key ∧ (preWrite E now).dead = E.dead := by
+  unfold preWrite
+  have := refreshTtl_fields { E with wrote := if E.hasReply then E.wrote else true } now
+  simpa using this
+
+theorem onReply_fields (E : Ep) (now : Nat) :
+    (onReply E now).closed = E.closed ∧ (onReply E now).connCloses = E.connCloses ∧
+    (onReply E now).failed = E.failed ∧ (onReply E now).key = E.key ∧ (onReply E now).dead = E.dead := by
+  unfold onReply
+  split
+  · simp
+  · exact refreshTtl_fields E now
+
+theorem writeTo_good (s : St) (e : Nat) (out : WriteOutcome) : Good s (writeTo s e out).1 := by
+  unfold writeTo
+  obtain ⟨a, b, c, d, f⟩ := preWrite_fields (s.eps e) s.now
+  split
+  · exact Good.refl s
+  · cases out with
+    | err =>
+      show Good s (retire (setEp s e (preWrite (s.eps e) s.now)) e)
+      exact Good.trans (Good.setEp s e _ a b c d (by rw [f]; exact id)) (retire_good _ e)
+    | ok =>
+      show Good s (setEp s e { (preWrite (s.eps e) s.now) with hasSent := true })
+      exact Good.setEp s e { (preWrite (s.eps e) s.now) with hasSent := true } a b c d
+        (by show _ → (preWrite (s.eps e) s.now).dead = true; rw [f]; exact id)
+    | short =>
+      show Good s (retire (setEp s e { (preWrite (s.eps e) s.now) with hasSent := true }) e)
+      exact Good.trans
+        (Good.setEp s e { (preWrite (s.eps e) s.now) with hasSent := true } a b c d
+          (by show _ → (preWrite (s.eps e) s.now).dead = true; rw [f]; exact id))
+        (retire_good _ e)
+
+theorem reply_good (s : St) (e : Nat) (ok : Bool) : Good s (reply s e ok) := by
+  unfold reply
+  obtain ⟨a, b, c, d, f⟩ := onReply_fields (s.eps e) s.now
+  split
+  · exact Good.refl s
+  · split
+    · exact Good.refl s
+    · split
+      · exact Good.setEp s e _ a b c d (by rw [f]; exact id)
+      · exact Good.trans (Good.setEp s e _ a b c d (by rw [f]; exact id)) (retire_good _ e)
+
+theorem readError_good (s : St) (e : Nat) : Good s (readError s e) := by
+  unfold readError; split
+  · exact Good.refl s
+  · exact retire_good s e
+
+theorem remove_good (s : St) (k e : Nat) : Good s (remove s k e) := by
+  unfold remove; split
+  · exact Good.trans (Good.setPool _ _ _) (Good.closeEp _ _)
+  · exact Good.closeEp _ _
+
+theorem janitorOne_good (t : Nat) (s : St) (ke : Nat × Nat) : Good s (janitorOne t s ke) := by
+  unfold janitorOne; split
+  · exact Good.trans (Good.setPool _ _ _) (Good.closeEp _ _)
+  · exact Good.refl s
+
+theorem janitor_good (n : Nat) (s : St) (t : Nat) : Good s (janitor n s t) := by
+  unfold janitor
+  have := foldl_good (janitorOne t) (janitorOne_good t) (pooled s n) s
+  exact this
+
+theorem tickJanitor_good (n : Nat) (s : St) : Good s (tickJanitor n s) := by
+  unfold tickJanitor
+  refine Good.trans (Good.of_eps (s' := { s with now := s.nextJanitor }) rfl rfl) ?_
+  exact Good.trans (janitor_good n _ _) (Good.of_eps rfl rfl)
+
+theorem runJanitors_good (n target : Nat) : ∀ (fuel : Nat) (s : St), Good s (runJanitors n target fuel s) := by
+  intro fuel
+  induction fuel with
+  | zero => intro s; exact Good.refl s
+  | succ f ih =>
+    intro s
+    simp only [runJanitors]
+    split
+    · exact Good.trans (tickJanitor_good n s) (ih _)
+    · exact Good.refl s
+
+theorem advance_good (n fuel : Nat) (s : St) (dt : Nat) : Good s (advance n fuel s dt) := by
+  unfold advance
+  exact Good.trans (runJanitors_good n _ fuel s) (Good.of_eps rfl rfl)
+
+theorem invalidate_good (s : St) (d : Nat) : Good s (invalidate s d).1 := by
+  unfold invalidate
+  simp only
+  refine Good.trans (epochCounter_good s d)
+    (Good.trans (Good.of_eps (s := (epochCounter s d).1) (s' := bumpEpoch (epochCounter s d).1 (epochCounter s d).2) rfl rfl) ?_)
+  exact foldl_good retire retire_good _ _
+
+theorem reset_good (n : Nat) (s : St) : Good s (reset n s) := by
+  unfold reset
+  refine Good.trans (foldl_good resetOne ?_ (pooled s n) s) (Good.of_eps rfl rfl)
+  intro t ke
+  unfold resetOne
+  exact Good.trans (Good.setPool _ _ _) (Good.closeEp _ _)
+
+theorem track_good (s : St) (e j : Nat) : Good s (track s e j) := by
+  unfold track
+  split
+  · exact Good.refl s
+  · split
+    · exact Good.refl s
+    · split
+      · exact Good.refl s
+      · exact Good.trans
+          (Good.setEp s e { (s.eps e) with tuples := (s.eps e).tuples ++ newTupleKeys (s.eps e) j } rfl rfl rfl rfl id)
+          (Good.setTrk _ _ _)
+
+theorem step_good (s : St) (op : Op) : Good s (step s op) := by
+  cases op with
+  | goc k sym nat owner drain d out => exact getOrCreate_good s k sym nat owner drain d out
+  | write e out => exact writeTo_good s e out
+  | reply e ok => exact reply_good s e ok
+  | readErr e => exact readError_good s e
+  | remove k e => exact remove_good s k e
+  | close e => exact Good.closeEp s e
+  | advance dt => exact advance_good _ _ s dt
+  | invalidate d => exact invalidate_good s d
+  | reset => exact reset_good _ s
+  | track e j => exact track_good s e j
+
+theorem run_good : ∀ (ops : List Op) (s : St), Good s (run s ops) := by
+  intro ops
+  induction ops with
+  | nil => intro s; exact Good.refl s
+  | cons op ops ih => intro s; exact Good.trans (step_good s op) (ih _)
+
+theorem allOk_init : AllOk init := by intro e he; simp [init] at he
 
 end DaeVerif.C13.EP
